@@ -666,16 +666,11 @@ theorem skipWs_natDec (n : Nat) (R : Bytes) : skipWs (natDec n ++ R) = natDec n 
   rw [hd]
   exact skipWs_nonws d0 _ (isWs_of_digit d0 hdig)
 
-/-- a complete JSON number lexeme that the model follows (used for `f64` sort values) -/
-def FLex (l : Bytes) : Prop :=
-  ∀ R, NumEnd R → skipWs (l ++ R) = l ++ R ∧
-    ∃ n, lexNum (l ++ R) = some (n, R) ∧ n.lex = l ∧ expTooLarge n = false
-
 /-- values the code can put into a cursor -/
 def CVal.wf : CVal → Prop
   | .score b => b ≤ u32Max
   | .i64 v => -9223372036854775808 ≤ v ∧ v ≤ 9223372036854775807
-  | .f64 l => FLex l
+  | .f64 b => b ≤ u64Max
   | .str s => validUtf8 s = true
   | .missing => True
 
@@ -735,15 +730,15 @@ theorem readContent_i64 (v : Int) (hv : -9223372036854775808 ≤ v ∧ v ≤ 922
     simp [closeVal_brace]
     omega
 
-theorem readContent_f64 (l : Bytes) (hl : FLex l) (R : Bytes) :
-    readContent tF64 (skipWs (l ++ 125 :: R)) = .ok (.f64 l) R := by
-  obtain ⟨hws, n, hn, hlex, hexp⟩ := hl (125 :: R) (numEnd_brace R)
-  rw [hws]
+theorem readContent_f64 (b : Nat) (hb : b ≤ u64Max) (R : Bytes) :
+    readContent tF64 (skipWs (natDec b ++ 125 :: R)) = .ok (.f64 b) R := by
+  rw [skipWs_natDec]
   unfold readContent
   have h1 : ¬ tF64 = tStr := by decide
   have h2 : ¬ tF64 = tScore := by decide
   have h3 : ¬ tF64 = tI64 := by decide
-  simp only [h1, h2, h3, if_false, hn, hexp, hlex, Bool.false_eq_true, closeVal_brace]
+  simp only [h1, h2, h3, if_false, lexNum_natDec b _ (numEnd_brace R)]
+  simp [Num.asUnsigned, Num.isInt, digitsVal_natDec, hb, closeVal_brace]
 
 theorem readContent_str (s : Bytes) (hs : validUtf8 s = true) (R : Bytes) :
     readContent tStr (skipWs (jsonStr s ++ 125 :: R)) = .ok (.str s) R := by
@@ -804,7 +799,7 @@ theorem readVal_print (v : CVal) (hv : v.wf) (R : Bytes) : readVal ((printVal v)
   | i64 x =>
     exact readVal_tagged tI64 (intDec x) R _ plain_tI64 (by decide) (by decide) (readContent_i64 x hv R)
   | f64 l =>
-    exact readVal_tagged tF64 l R _ plain_tF64 (by decide) (by decide) (readContent_f64 l hv R)
+    exact readVal_tagged tF64 (natDec l) R _ plain_tF64 (by decide) (by decide) (readContent_f64 l hv R)
   | str s =>
     exact readVal_tagged tStr (jsonStr s) R _ plain_tStr (by decide) (by decide) (readContent_str s hv R)
   | missing => exact readVal_missing R
